@@ -193,7 +193,7 @@ theorem spec2_filterMap (hi : E .index) (hbud : E .budget) (cfg : CheckCfg) (c :
       obtain ⟨⟨Vb, hVb⟩, hfs⟩ := hb coll bto hsa hsb
       have hbsome : ∃ bt, bto = some bt := by
         cases bto with
-        | none => simp [vtyOf, OTy.kind, RKind.isScalar, sliceElemKind, isAnySlice] at hVb
+        | none => simp [vtyOf, OTy.kind, RKind.isScalar, sliceElemKind, isAnySlice, isObjT, OTy.deref] at hVb
         | some bt => exact ⟨bt, rfl⟩
       obtain ⟨bt, rfl⟩ := hbsome
       rw [hsb] at hs
@@ -333,6 +333,7 @@ def inFrag2 (calls : Bool) : Node → Bool
     (isPredBuiltin name || name == "filter" || name == "map") && inFrag2 calls a && inFrag2 calls b
   | .func _ _ args _ => calls && inFrag2L calls args
   | .array _ xs => inFrag2L calls xs
+  | .prop _ x _ _ => inFrag2 calls x
   | _ => false
 def inFrag2L (calls : Bool) : List Node → Bool
   | [] => true
@@ -365,6 +366,12 @@ def sliceVOK (t : Option OTy) : Bool :=
     (match vtyOf τ with
       | some V => V.isSlice
       | none => false)
+  | none => false
+
+/-- a struct or pointer-to-struct type -/
+def objOK (t : Option OTy) : Bool :=
+  match t with
+  | some τ => vtyOf τ == some (.obj τ)
   | none => false
 
 /-- both branches and the conditional have one value type -/
@@ -413,6 +420,7 @@ def typed2 (cfg : CheckCfg) : List OTy → Node → Bool
           | .inl _ => false)
       | none => false)
   | cs, .array _ xs => typed2L cfg cs xs
+  | cs, .prop _ x _ _ => objOK (synth cfg cs x) && typed2 cfg cs x
   | _, _ => true
 /-- the elements of an array literal: each has a value type of the fragment -/
 def typed2L (cfg : CheckCfg) : List OTy → List Node → Bool
@@ -448,7 +456,7 @@ theorem intOK_elim {o : Option OTy} (h : intOK o = true) :
 mutual
 /-- **Soundness on the extended fragment**, by recursion over the tree. -/
 theorem frag2_sound (hd : E .divzero) (hi : E .index) (hbud : E .budget) (cfg : CheckCfg) (c : SCfg)
-    (henv : EnvConforms2 cfg c.env) (calls : Bool) (hw : calls = true → WorldConforms E cfg c) :
+    (henv : EnvConforms2 cfg c.env) (hdn : cfg.dn = NDefects.asIs) (calls : Bool) (hw : calls = true → WorldConforms E cfg c) :
     ∀ (n : Node) (cs : List OTy), inFrag2 calls n = true → typed2 cfg cs n = true → Spec2 E cfg c cs n
   | .bool m b, cs, _, _ =>
     frag_to_spec2 (frag_sound hd cfg cs c (envConforms_of2 henv) (.bool m b) rfl rfl)
@@ -467,7 +475,7 @@ theorem frag2_sound (hd : E .divzero) (hi : E .index) (hbud : E .budget) (cfg : 
   | .unary m op x, cs, hf, ht => by
     simp only [inFrag2, Bool.and_eq_true] at hf
     simp only [typed2, Bool.and_eq_true] at ht
-    have ihx := frag2_sound hd hi hbud cfg c henv calls hw x cs hf.2 ht.2
+    have ihx := frag2_sound hd hi hbud cfg c henv hdn calls hw x cs hf.2 ht.2
     refine frag_to_spec2 (frag_unary cfg cs c m op x hf.1 ht.1.1 ht.1.2 (spec2_to_frag ihx)) ?_
     intro τ h
     have := ht.1.1
@@ -476,9 +484,9 @@ theorem frag2_sound (hd : E .divzero) (hi : E .index) (hbud : E .budget) (cfg : 
     simp only [inFrag2, Bool.and_eq_true] at hf
     simp only [typed2, Bool.and_eq_true] at ht
     obtain ⟨⟨⟨⟨h0, h1⟩, t1⟩, t2⟩, t3⟩ := ht
-    refine spec2_cond cfg c cs m cn a b (frag2_sound hd hi hbud cfg c henv calls hw cn cs hf.1.1 t1)
-      (frag2_sound hd hi hbud cfg c henv calls hw a cs hf.1.2 t2)
-      (frag2_sound hd hi hbud cfg c henv calls hw b cs hf.2 t3) ?_ ?_
+    refine spec2_cond cfg c cs m cn a b (frag2_sound hd hi hbud cfg c henv hdn calls hw cn cs hf.1.1 t1)
+      (frag2_sound hd hi hbud cfg c henv hdn calls hw a cs hf.1.2 t2)
+      (frag2_sound hd hi hbud cfg c henv hdn calls hw b cs hf.2 t3) ?_ ?_
     · intro ct h
       rw [h] at h0; exact h0
     · intro ta tb ha hb
@@ -491,8 +499,8 @@ theorem frag2_sound (hd : E .divzero) (hi : E .index) (hbud : E .budget) (cfg : 
     simp only [typed2, Bool.and_eq_true] at ht
     obtain ⟨⟨hop, hfl⟩, hfr⟩ := hf
     obtain ⟨⟨hcls, htl⟩, htr⟩ := ht
-    have ihl := frag2_sound hd hi hbud cfg c henv calls hw l cs hfl htl
-    have ihr := frag2_sound hd hi hbud cfg c henv calls hw r cs hfr htr
+    have ihl := frag2_sound hd hi hbud cfg c henv hdn calls hw l cs hfl htl
+    have ihr := frag2_sound hd hi hbud cfg c henv hdn calls hw r cs hfr htr
     by_cases hfb : fragBinary op = true
     · simp only [hfb, if_true, Bool.and_eq_true] at hcls
       refine frag_to_spec2 (frag_binary hd cfg cs c m op l r hfb hcls.1.2 hcls.2 (spec2_to_frag ihl)
@@ -536,8 +544,8 @@ theorem frag2_sound (hd : E .divzero) (hi : E .index) (hbud : E .budget) (cfg : 
     simp only [inFrag2, Bool.and_eq_true] at hf
     simp only [typed2, Bool.and_eq_true] at ht
     obtain ⟨⟨⟨hsx, hsi⟩, htx⟩, hti⟩ := ht
-    refine spec2_index hi cfg c cs m x i (frag2_sound hd hi hbud cfg c henv calls hw x cs hf.1 htx)
-      (frag2_sound hd hi hbud cfg c henv calls hw i cs hf.2 hti) ?_ ?_
+    refine spec2_index hi cfg c cs m x i (frag2_sound hd hi hbud cfg c henv hdn calls hw x cs hf.1 htx)
+      (frag2_sound hd hi hbud cfg c henv hdn calls hw i cs hf.2 hti) ?_ ?_
     · intro t h
       rw [h] at hsx
       simp only [sliceOK, Option.isSome_iff_exists] at hsx
@@ -549,36 +557,36 @@ theorem frag2_sound (hd : E .divzero) (hi : E .index) (hbud : E .budget) (cfg : 
   | .slice m x none none, cs, hf, ht => by
     simp only [inFrag2] at hf
     simp only [typed2, Bool.and_eq_true] at ht
-    refine spec2_slice hi cfg c cs m x none none (frag2_sound hd hi hbud cfg c henv calls hw x cs hf ht.2)
+    refine spec2_slice hi cfg c cs m x none none (frag2_sound hd hi hbud cfg c henv hdn calls hw x cs hf ht.2)
       (fun n h => by cases h) (fun n h => by cases h) (sliceOK_elim ht.1)
       (fun n it h => by cases h) (fun n it h => by cases h)
   | .slice m x (some f) none, cs, hf, ht => by
     simp only [inFrag2, Bool.and_eq_true] at hf
     simp only [typed2, Bool.and_eq_true] at ht
     obtain ⟨⟨⟨h1, h2⟩, h3⟩, h4⟩ := ht
-    refine spec2_slice hi cfg c cs m x (some f) none (frag2_sound hd hi hbud cfg c henv calls hw x cs hf.1 h2)
-      (fun n h => by cases h; exact frag2_sound hd hi hbud cfg c henv calls hw f cs hf.2 h4) (fun n h => by cases h)
+    refine spec2_slice hi cfg c cs m x (some f) none (frag2_sound hd hi hbud cfg c henv hdn calls hw x cs hf.1 h2)
+      (fun n h => by cases h; exact frag2_sound hd hi hbud cfg c henv hdn calls hw f cs hf.2 h4) (fun n h => by cases h)
       (sliceOK_elim h1) (fun n it h => by cases h; exact intOK_elim h3 it) (fun n it h => by cases h)
   | .slice m x none (some t), cs, hf, ht => by
     simp only [inFrag2, Bool.and_eq_true] at hf
     simp only [typed2, Bool.and_eq_true] at ht
     obtain ⟨⟨⟨h1, h2⟩, h3⟩, h4⟩ := ht
-    refine spec2_slice hi cfg c cs m x none (some t) (frag2_sound hd hi hbud cfg c henv calls hw x cs hf.1 h2)
-      (fun n h => by cases h) (fun n h => by cases h; exact frag2_sound hd hi hbud cfg c henv calls hw t cs hf.2 h4)
+    refine spec2_slice hi cfg c cs m x none (some t) (frag2_sound hd hi hbud cfg c henv hdn calls hw x cs hf.1 h2)
+      (fun n h => by cases h) (fun n h => by cases h; exact frag2_sound hd hi hbud cfg c henv hdn calls hw t cs hf.2 h4)
       (sliceOK_elim h1) (fun n it h => by cases h) (fun n it h => by cases h; exact intOK_elim h3 it)
   | .slice m x (some f) (some t), cs, hf, ht => by
     simp only [inFrag2, Bool.and_eq_true] at hf
     simp only [typed2, Bool.and_eq_true] at ht
     obtain ⟨⟨⟨⟨⟨h1, h2⟩, h3⟩, h4⟩, h5⟩, h6⟩ := ht
-    refine spec2_slice hi cfg c cs m x (some f) (some t) (frag2_sound hd hi hbud cfg c henv calls hw x cs hf.1.1 h2)
-      (fun n h => by cases h; exact frag2_sound hd hi hbud cfg c henv calls hw f cs hf.1.2 h4)
-      (fun n h => by cases h; exact frag2_sound hd hi hbud cfg c henv calls hw t cs hf.2 h6)
+    refine spec2_slice hi cfg c cs m x (some f) (some t) (frag2_sound hd hi hbud cfg c henv hdn calls hw x cs hf.1.1 h2)
+      (fun n h => by cases h; exact frag2_sound hd hi hbud cfg c henv hdn calls hw f cs hf.1.2 h4)
+      (fun n h => by cases h; exact frag2_sound hd hi hbud cfg c henv hdn calls hw t cs hf.2 h6)
       (sliceOK_elim h1) (fun n it h => by cases h; exact intOK_elim h3 it) (fun n it h => by cases h; exact intOK_elim h5 it)
   | .builtin m name [a], cs, hf, ht => by
     simp only [inFrag2, Bool.and_eq_true, beq_iff_eq] at hf
     simp only [typed2, Bool.and_eq_true] at ht
     obtain ⟨rfl, hfa⟩ := hf
-    refine spec2_len cfg c cs m a (frag2_sound hd hi hbud cfg c henv calls hw a cs hfa ht.2) ?_
+    refine spec2_len cfg c cs m a (frag2_sound hd hi hbud cfg c henv hdn calls hw a cs hfa ht.2) ?_
     intro t h
     have hl := ht.1
     rw [h] at hl
@@ -594,12 +602,12 @@ theorem frag2_sound (hd : E .divzero) (hi : E .index) (hbud : E .budget) (cfg : 
     simp only [typed2, Bool.and_eq_true] at ht
     obtain ⟨⟨hname, hfa⟩, hfb⟩ := hf
     obtain ⟨⟨⟨hsa, hta⟩, hdt⟩, hbody⟩ := ht
-    have iha := frag2_sound hd hi hbud cfg c henv calls hw a cs hfa hta
+    have iha := frag2_sound hd hi hbud cfg c henv hdn calls hw a cs hfa hta
     have ihb : ∀ coll, synth cfg cs a = some coll → Spec2 E cfg c (coll :: cs) b := by
       intro coll hc
       rw [hc] at hbody
       simp only [Bool.and_eq_true] at hbody
-      exact frag2_sound hd hi hbud cfg c henv calls hw b (coll :: cs) hfb hbody.2
+      exact frag2_sound hd hi hbud cfg c henv hdn calls hw b (coll :: cs) hfb hbody.2
     by_cases hp : isPredBuiltin name = true
     · refine spec2_predBuiltin cfg c cs m mc name a b hp iha ihb (sliceOK_elim hsa) ?_
       intro coll bt hc hb'
@@ -643,12 +651,20 @@ theorem frag2_sound (hd : E .divzero) (hi : E .index) (hbud : E .budget) (cfg : 
       cases h1
       rw [h2] at ht
       simp only [] at ht
-      exact frag2_args hd hi hbud cfg c henv calls hw args cs ins variadic numIn offset 0 hfa ht
+      exact frag2_args hd hi hbud cfg c henv hdn calls hw args cs ins variadic numIn offset 0 hfa ht
+  | .prop m x name ns, cs, hf, ht => by
+    simp only [inFrag2] at hf
+    simp only [typed2, Bool.and_eq_true] at ht
+    refine spec2_prop cfg c cs hdn m x name ns (frag2_sound hd hi hbud cfg c henv hdn calls hw x cs hf ht.2) ?_
+    intro t h
+    have := ht.1
+    rw [h] at this
+    simpa [objOK] using this
   | .array m xs, cs, hf, ht => by
     simp only [inFrag2] at hf
     simp only [typed2] at ht
-    exact spec2_array hbud cfg c cs m xs (frag2_elems hd hi hbud cfg c henv calls hw xs cs hf ht)
-  | .nil _, _, hf, _ | .const _ _, _, hf, _ | .matches _ _ _ _, _, hf, _ | .prop _ _ _ _, _, hf, _
+    exact spec2_array hbud cfg c cs m xs (frag2_elems hd hi hbud cfg c henv hdn calls hw xs cs hf ht)
+  | .nil _, _, hf, _ | .const _ _, _, hf, _ | .matches _ _ _ _, _, hf, _
   | .method _ _ _ _ _, _, hf, _
   | .closure _ _, _, hf, _ | .map _ _, _, hf, _ | .pair _ _ _, _, hf, _ => by
     simp [inFrag2] at hf
@@ -657,19 +673,19 @@ theorem frag2_sound (hd : E .divzero) (hi : E .index) (hbud : E .budget) (cfg : 
   | .builtin _ _ [_, .nil _], _, hf, _ => by simp [inFrag2] at hf
 
 theorem frag2_elems (hd : E .divzero) (hi : E .index) (hbud : E .budget) (cfg : CheckCfg) (c : SCfg)
-    (henv : EnvConforms2 cfg c.env) (calls : Bool) (hw : calls = true → WorldConforms E cfg c) :
+    (henv : EnvConforms2 cfg c.env) (hdn : cfg.dn = NDefects.asIs) (calls : Bool) (hw : calls = true → WorldConforms E cfg c) :
     ∀ (xs : List Node) (cs : List OTy), inFrag2L calls xs = true → typed2L cfg cs xs = true →
       ElemsOK E cfg c cs xs
   | [], _, _, _ => trivial
   | a :: rest, cs, hf, ht => by
     simp only [inFrag2L, Bool.and_eq_true] at hf
     simp only [typed2L, Bool.and_eq_true] at ht
-    refine ⟨⟨?_, frag2_sound hd hi hbud cfg c henv calls hw a cs hf.1 ht.1.2, ht.1.1⟩,
-      frag2_elems hd hi hbud cfg c henv calls hw rest cs hf.2 ht.2⟩
+    refine ⟨⟨?_, frag2_sound hd hi hbud cfg c henv hdn calls hw a cs hf.1 ht.1.2, ht.1.1⟩,
+      frag2_elems hd hi hbud cfg c henv hdn calls hw rest cs hf.2 ht.2⟩
     cases a <;> first | rfl | (simp [inFrag2] at hf)
 
 theorem frag2_args (hd : E .divzero) (hi : E .index) (hbud : E .budget) (cfg : CheckCfg) (c : SCfg)
-    (henv : EnvConforms2 cfg c.env) (calls : Bool) (hw : calls = true → WorldConforms E cfg c) :
+    (henv : EnvConforms2 cfg c.env) (hdn : cfg.dn = NDefects.asIs) (calls : Bool) (hw : calls = true → WorldConforms E cfg c) :
     ∀ (args : List Node) (cs : List OTy) (ins : List Ty) (variadic : Bool) (numIn offset i : Nat),
       inFrag2L calls args = true → typed2A cfg cs ins variadic numIn offset i args = true →
       ArgsOK E cfg c cs ins variadic numIn offset i args
@@ -677,8 +693,8 @@ theorem frag2_args (hd : E .divzero) (hi : E .index) (hbud : E .budget) (cfg : C
   | a :: rest, cs, ins, variadic, numIn, offset, i, hf, ht => by
     simp only [inFrag2L, Bool.and_eq_true] at hf
     simp only [typed2A, Bool.and_eq_true] at ht
-    refine ⟨⟨?_, frag2_sound hd hi hbud cfg c henv calls hw a cs hf.1 ht.1.2, ht.1.1⟩,
-      frag2_args hd hi hbud cfg c henv calls hw rest cs ins variadic numIn offset (i + 1) hf.2 ht.2⟩
+    refine ⟨⟨?_, frag2_sound hd hi hbud cfg c henv hdn calls hw a cs hf.1 ht.1.2, ht.1.1⟩,
+      frag2_args hd hi hbud cfg c henv hdn calls hw rest cs ins variadic numIn offset (i + 1) hf.2 ht.2⟩
     cases a <;> first | rfl | (simp [inFrag2] at hf)
 end
 
